@@ -73,7 +73,8 @@ def run(ctx):
     chunks = [vectors[i::16] for i in range(16) if vectors[i::16]]
     payloads = [{"vectors": c} for c in chunks]
     # ---- histories of settings on one object (EphemSettings.tla) ------------------------------------------------------------
-    sconst = {"Orders": {2, 5, 6, 11}, "Queries": {3, 15, 28} if thorough else {3, 15}, "MaxLen": 5 if thorough else 4, "FreezeAtFirstUse": False}
+    sconst = {"Orders": {2, 6, 11}, "Queries": {3, 15, 28} if thorough else {3, 15}, "MaxLen": 5 if thorough else 4, "FreezeAtFirstUse": False,
+              "Reprs": RawTla('{<<"EME2000", "cartesian">>, <<"EME2000", "keplerian">>, <<"TOD", "cartesian">>, <<"ITRF", "spherical">>}')}
     n4, mc4, cl4 = tlcmod.wrap("EphemSettings", sconst, name="MCEphemSettings")
     cfg4 = "SPECIFICATION Spec\n" + cl4 + "INVARIANT UsesCurrentSettings\nCHECK_DEADLOCK FALSE\n"
     r4 = ctx.tlc(n4, label="settings histories (contract)", cfg_text=cfg4, extra_files={n4 + ".tla": mc4}, workers=8, dump=True, dump_only=["hist"])
@@ -88,6 +89,13 @@ def run(ctx):
         hists = rnd.sample(hists, 6000 if thorough else 1500)
     behs = [{"hist": h, "degree": (4, 5, 9)[i % 3]} for i, h in enumerate(hists)]
     payloads += [{"settings": behs[i::8]} for i in range(8) if behs[i::8]]
+    # ---- accuracy on smooth orbits (law): element forms x frames ----------------------------------------------------------------
+    acc = []
+    for kep, step in (([7.2e6, 0.02, 0.9, 1.0, 2.0, 0.7], 60), ([2.66e7, 0.7, 1.1, 0.3, 4.7, 3.0], 120), ([7.0e6, 0.001, 1.7, 3.0, 0.1, 5.9], 60)):
+        for fr_ in ("EME2000", "ITRF") + (("TOD",) if thorough else ()):
+            for fo_ in ("cartesian", "spherical", "keplerian", "equinoctial"):
+                acc.append({"kep": kep, "step": step, "n": 40 if thorough else 24, "frame": fr_, "form": fo_})
+    payloads += [{"accuracy": acc[i::4]} for i in range(4)]
     for res in ctx.harness_parallel("interp_replay.py", payloads, procs=16):
         ctx.absorb(res)
     ctx.exhaustive = thorough
